@@ -1,7 +1,11 @@
-/- Verbs of the hand-written protocol models (E2).  Each model contributes a handler. -/
+/- Verbs of the hand-written protocol models (E2).  Each model contributes a handler over a shared
+   protocol state. -/
 namespace Proto
 
-def handle (verb : String) (args : List String) : Option String :=
+structure PState where
+  dummy : Nat := 0
+
+def handle (st : PState) (verb : String) (args : List String) : Option (PState × String) :=
   none
 
 end Proto
